@@ -292,12 +292,13 @@ def decoIgnore : Deco where
 /-! ### Tolerant equality -/
 
 /-- Value of tolerance number `k` in units of 2^-60 (the harness uses the same table:
-2^-52, 2^-40, 2^-30, 2^-20, 2^-12, 2^-8, 2^-4, 2^-1). -/
+2^-52, 2^-40, 2^-30, 2^-20, 2^-12, 2^-8, 2^-4, 2^-1, and number 8 = exactly zero). -/
 def tolUnits (k : Nat) : Nat :=
-  2 ^ (60 - ([52, 40, 30, 20, 12, 8, 4, 1].getD k 60))
+  [2 ^ 8, 2 ^ 20, 2 ^ 30, 2 ^ 40, 2 ^ 48, 2 ^ 52, 2 ^ 56, 2 ^ 59, 0].getD k 0
 
 /-- `Container._equals` on `x = [2 + 7·2^-m]`, `y = [2]`: an argument that is not `None` is used
-as given, otherwise the global one is read; then `|x - y| <= atol + rtol*|y|`. -/
+as given — whatever its value, zero included: the test is `is None`, not truthiness —
+otherwise the global one is read; then `|x - y| <= atol + rtol*|y|`. -/
 def eqResult (r a : Option Nat) (m : Nat) (s : State) : Bool :=
   let rt := match r with | some k => k | none => s.rtol
   let at_ := match a with | some k => k | none => s.atol
